@@ -15,3 +15,4 @@ for f in check checks_config.py harness/common.go harness/main.go harness/lang.g
 done
 echo "== new files in agent copy not present in /verif (outside owned set):"
 (cd $W && find harness extract lean/RisorModel lean/Oracle checks tools -type f 2>/dev/null | grep -v "/.lake/" ) | while read f; do [ -e $V/$f ] || echo "  NEW $f"; done
+cd $V && ./check manifest
